@@ -66,3 +66,102 @@ pub(crate) fn c19_grid_schema_never_panics() {
     for (class, example) in &examples { eprintln!("VERIF-GRID-EXAMPLE panic class `{class}` first seen on: {example}"); }
     if !failures.is_empty() { panic!("schema construction misbehaved: {{{}}}", failures.into_iter().collect::<Vec<_>>().join("; ")); }
 }
+
+
+// ---- acceptance against the documented rules ------------------------------------------------------
+// A three-level hierarchy that is valid by construction; each case replaces one part of it by a variation
+// whose verdict follows from one documented rule (the expected verdict is a constant of the case, written
+// from the rule, not computed by running anything).
+fn hierarchy(order: &str, leaf_fields: &str, extra: &str, top_implements: &str) -> String {
+    format!(r#"schema {{ query: RootSchemaQuery }}
+directive @filter(op: String!, value: [String!]) repeatable on FIELD | INLINE_FRAGMENT
+directive @tag(name: String) repeatable on FIELD
+directive @output(name: String) repeatable on FIELD
+directive @optional on FIELD
+directive @recurse(depth: Int!) on FIELD
+directive @fold on FIELD
+directive @transform(op: String!) repeatable on FIELD
+type RootSchemaQuery {{ Top: [Top]  Other: Other }}
+interface Top{top_implements} {{ p: Int  e: Top  q(x: Int): [Top] }}
+interface Mid implements Top {{ p: Int!  e: Mid  q(x: Int): [Mid] }}
+type Leaf implements {order} {{ {leaf_fields} }}
+type Other {{ name: String }}
+{extra}
+"#)
+}
+
+// @grid c19_grid_acceptance_matches_rules tier=quick bound="a 3-level interface hierarchy (Top <- Mid <- Leaf) x both orders of Leaf's implements list x 16 valid and 30 invalid variations of Leaf's inherited fields, implements list and the surrounding types; 9 valid and 12 invalid parameter default values"
+// @ob Schema::parse accepts a document exactly when the documented rules hold: interfaces exist and are implemented transitively, inherited fields are present and only narrowed with respect to every implemented interface, inherited parameters are neither dropped nor added, field types are built-in scalars or defined vertex types, no reserved names, no edges into the root type, properties take no parameters, default values fit their parameter's type, no implementation cycles
+pub(crate) fn c19_grid_acceptance_matches_rules() {
+    let mut n = 0u64;
+    let mut failures = BTreeSet::new();
+    let mut check = |label: String, text: String, expect: bool, failures: &mut BTreeSet<String>| {
+        vk::grid_case(format_args!("{}", label));
+        match verdict(&text) {
+            Ok(v) if v == expect => {}
+            Ok(v) => { failures.insert(format!("{label}: {} but the rules say {}", if v { "accepted" } else { "rejected" }, if expect { "valid" } else { "invalid" })); }
+            Err(m) => { if expect { failures.insert(format!("{label}: panic class `{m}` on a valid schema")); } }
+        }
+    };
+    // (p, e, q) of Leaf; the base is (Int!, Leaf, [Leaf!])
+    let field_cases: [(&str, &str, bool); 24] = [
+        ("base", "p: Int!  e: Leaf  q(x: Int): [Leaf!]", true),
+        ("edge to the middle interface", "p: Int!  e: Mid  q(x: Int): [Mid]", true),
+        ("edges made non-null", "p: Int!  e: Leaf!  q(x: Int): [Leaf!]!", true),
+        ("own extra fields", "p: Int!  e: Leaf  q(x: Int): [Leaf!]  own: String  other: Other  again(y: Int!): [Leaf]", true),
+        ("field order changed", "q(x: Int): [Leaf!]  e: Leaf  p: Int!", true),
+        ("property nullable again (wider than Mid only)", "p: Int  e: Leaf  q(x: Int): [Leaf!]", false),
+        ("edge back to Top (wider than Mid only)", "p: Int!  e: Top  q(x: Int): [Leaf!]", false),
+        ("list edge back to Top (wider than Mid only)", "p: Int!  e: Leaf  q(x: Int): [Top]", false),
+        ("property of another scalar", "p: String!  e: Leaf  q(x: Int): [Leaf!]", false),
+        ("property became a list", "p: [Int!]!  e: Leaf  q(x: Int): [Leaf!]", false),
+        ("list edge became singular", "p: Int!  e: Leaf  q(x: Int): Leaf", false),
+        ("edge to an unrelated type", "p: Int!  e: Other  q(x: Int): [Leaf!]", false),
+        ("inherited property missing", "e: Leaf  q(x: Int): [Leaf!]", false),
+        ("inherited edge missing", "p: Int!  q(x: Int): [Leaf!]", false),
+        ("inherited parameter dropped", "p: Int!  e: Leaf  q: [Leaf!]", false),
+        ("parameter added to an inherited edge", "p: Int!  e: Leaf  q(x: Int, y: Int): [Leaf!]", false),
+        ("parameter renamed", "p: Int!  e: Leaf  q(z: Int): [Leaf!]", false),
+        ("property with a parameter", "p(a: Int): Int!  e: Leaf  q(x: Int): [Leaf!]", false),
+        ("undefined field type", "p: Int!  e: Leaf  q(x: Int): [Leaf!]  z: Undefined", false),
+        ("edge into the root type", "p: Int!  e: Leaf  q(x: Int): [Leaf!]  r: RootSchemaQuery", false),
+        ("reserved field name", "p: Int!  e: Leaf  q(x: Int): [Leaf!]  __mine: Int", false),
+        ("duplicate field", "p: Int!  e: Leaf  q(x: Int): [Leaf!]  p: Int!", false),
+        ("ID property", "p: Int!  e: Leaf  q(x: Int): [Leaf!]  id: ID!", true),
+        ("list-of-list property", "p: Int!  e: Leaf  q(x: Int): [Leaf!]  m: [[Float!]]", true),
+    ];
+    for order in ["Top & Mid", "Mid & Top"] {
+        for (label, fields, expect) in field_cases { check(format!("implements {order}: {label}"), hierarchy(order, fields, "", ""), expect, &mut failures); n += 1; }
+    }
+    let base = "p: Int!  e: Leaf  q(x: Int): [Leaf!]";
+    let structure: [(&str, String, bool); 11] = [
+        ("implements only Mid (Top not listed)", hierarchy("Mid", base, "", ""), false),
+        ("implements only Top", hierarchy("Top", base, "", ""), true),
+        ("implements a type that does not exist", hierarchy("Top & Mid & Missing", base, "", ""), false),
+        ("implements an object type", hierarchy("Top & Mid & Other", base, "", ""), false),
+        ("implementation cycle", hierarchy("Top & Mid", base, "", " implements Mid"), false),
+        ("reserved type name", hierarchy("Top & Mid", base, "type __Mine { name: String }", ""), false),
+        ("second implementer", hierarchy("Top & Mid", base, "type Leaf2 implements Mid & Top { p: Int!  e: Leaf  q(x: Int): [Leaf2] }", ""), true),
+        ("second implementer widening against Mid", hierarchy("Top & Mid", base, "type Leaf2 implements Top & Mid { p: Int  e: Leaf  q(x: Int): [Leaf2] }", ""), false),
+        ("third interface level", hierarchy("Top & Mid", base, "interface Low implements Mid & Top { p: Int!  e: Low  q(x: Int): [Low] }  type Leaf3 implements Top & Mid & Low { p: Int!  e: Leaf3  q(x: Int): [Leaf3] }", ""), true),
+        ("third interface level, widening against the last listed interface", hierarchy("Top & Mid", base, "interface Low implements Mid & Top { p: Int!  e: Low  q(x: Int): [Low] }  type Leaf3 implements Top & Mid & Low { p: Int!  e: Mid  q(x: Int): [Leaf3] }", ""), false),
+        ("duplicate type", hierarchy("Top & Mid", base, "type Other { name: String }", ""), false),
+    ];
+    for (label, text, expect) in structure { check(label.to_string(), text, expect, &mut failures); n += 1; }
+    // default values of edge parameters
+    let defaults: [(&str, bool); 21] = [
+        ("x: Int = 1", true), ("x: Int = null", true), ("x: [Int] = [1, null]", true), (r#"x: String = "a""#, true), ("x: Float = 1.5", true), ("x: Boolean = true", true),
+        ("x: Int! = 7", true), ("x: [Int!]! = []", true), ("x: [[Int]] = [[1], null]", true),
+        (r#"x: Int = "a""#, false), ("x: Int! = null", false), ("x: String = 1", false), ("x: [Int!] = [1, null]", false), ("x: Int = {a: 1}", false), ("x: [Int] = [1, {x: 2}]", false),
+        ("x: Int = [1]", false), ("x: Boolean = 1", false), ("x: Int = 1.5", false), ("x: Int = SOME_ENUM", false), (r#"x: [String] = "a""#, false), ("x: String = {}", false),
+    ];
+    for (param, expect) in defaults {
+        for place in ["edge", "entrypoint"] {
+            let text = if place == "edge" { hierarchy("Top & Mid", base, &format!("type Holder {{ name: String  to({param}): [Other] }}"), "") }
+                       else { hierarchy("Top & Mid", base, "", "").replace("Other: Other", &format!("Other: Other  Param({param}): [Other]")) };
+            check(format!("default value on an {place} parameter: {param}"), text, expect, &mut failures); n += 1;
+        }
+    }
+    vk::grid_done("c19_grid_acceptance_matches_rules", n);
+    if !failures.is_empty() { panic!("schema acceptance differs from the documented rules: {{{}}}", failures.into_iter().collect::<Vec<_>>().join("; ")); }
+}
